@@ -17,11 +17,12 @@ from doubles.refcodec import Node
 PROP = "C12"
 LEVEL = "fault_enumeration"
 RULE = ("case = failure site: injected exception at send or receive entry of each of the 9 layers of the default stack "
-        "(18 sites) + natural faults (down: non-string attribute -> coder, frame far above and exactly at the 2^24 limit; up: "
+        "(18 sites) + natural faults (down: non-string attribute -> coder, frame far above and exactly at the 2^24 limit, a send "
+        "while no session is ready; up: "
         "garbage Noise frame, undecodable stanza bytes, picture notification without set/delete, application callback raising) "
         "+ the upward failures at the coder and above once more under a receive driver that survives them (10 sites) x position "
         "of the failing operation after 0-3 good operations x follow-ups from the same task and from another task x 2-4 "
-        "follow-up sends and incoming stanzas x dispatcher x scheduling; cases 0..279 enumerate site x position x follow-up "
+        "follow-up sends and incoming stanzas x dispatcher x scheduling; cases 0..287 enumerate site x position x follow-up "
         "thread once each, later cases draw from the same space with new schedules; distinct = distinct schedule+event "
         "digests; non-trivial = the fault fired and at least one follow-up operation was attempted afterwards")
 COMPONENTS = {"real": ["whole default stack (YowLayer.toLower locks, YowParallelLayer, coder, noise incl. _flush_lock, segments, "
@@ -33,10 +34,11 @@ ASSUMPTIONS = ["six 1.17 shim", "consonance randint(float) coerced", "an injecte
                "inside their own toLower/receive calls"]
 BUDGET = {"quick": (624, 170), "thorough": (100000, 2700)}
 FAULTS = ["layer_exception_down", "layer_exception_up", "natural_down", "natural_up"]
-PROBES = ["reported_to_caller", "reported_by_dispatcher_close", "reported_to_receive_caller", "followup_same_task", "followup_other_task", "reconnected_after_fault",
+PROBES = ["kept_until_session_ready", "reported_to_caller", "reported_by_dispatcher_close", "reported_to_receive_caller", "followup_same_task", "followup_other_task", "reconnected_after_fault",
           "locks_free_after_fault"]
 SHRINK = []
-NATURAL = [("down", "nonstring_attribute"), ("down", "oversized_frame"), ("down", "frame_exactly_at_limit"), ("up", "garbage_noise_frame"), ("up", "undecodable_stanza"),
+NATURAL = [("down", "nonstring_attribute"), ("down", "oversized_frame"), ("down", "frame_exactly_at_limit"), ("down", "session_not_ready"),
+           ("up", "garbage_noise_frame"), ("up", "undecodable_stanza"),
            ("up", "picture_notification_without_set_or_delete"), ("up", "application_callback_raises")]
 LAYER_NAMES = ["network", "segments", "noise", "coder", "logger", "axolotl_control", "axolotl_group", "protocol_group", "application"]
 _S = {}
@@ -283,6 +285,36 @@ class W(fullwire.FullWorld):
         S = _S
         site = self.site
         kind = site["kind"]
+        if site["dir"] == "down" and kind == "session_not_ready":
+            # the peer drops the connection; the application sends while there is no session (none at all, or the next
+            # login still under way): either the send is refused with an error, or it is kept and goes out after the login
+            c = self.server_conn()
+            d0 = self.disc
+            if c is None:
+                self.violate("harness/no-connection", "no connection to drop")
+                return
+            c.close()
+            self.wait_until(lambda: self.disc > d0, 40)
+            ent, sid = self.good_entity()
+            proto = getattr(self.noise, "_wa_noiseprotocol", None)
+            dead_session = (proto is not None and proto.state == "transport" and not self.netlayer.connected)
+            ex = self.app_send(ent)
+            self.fired += 1
+            self.faults["natural_down"] = 1
+            self.fault_reported = ex
+            if ex is None:
+                if not self.wait_until(lambda: sid in self.server_decoded_ids(), 150):
+                    self.violate("silently-dropped/%s%s" % (self.label(), "/dead-session-still-installed" if dead_session else ""),
+                                 "a send issued while no session was ready returned normally, but the stanza never reached the "
+                                 "server after the next login%s; %s" % (
+                                     " (the Noise layer still held the session of the lost connection: its DISCONNECTED "
+                                     "announcement was still queued, the bytes were encrypted and dropped by the network layer)"
+                                     if dead_session else "", self.stuck()))
+                else:
+                    self.probe("kept_until_session_ready")
+            else:
+                self.probe("reported_to_caller")
+            return
         if site["dir"] == "down":
             if kind == "injected":
                 self.armed = True
